@@ -113,6 +113,25 @@ def mqDel (tb : Tables) (q : Nat) : Tables :=
   else tb
 end Tables
 
+/-! ## deviation flags
+
+Each flag selects between the shape the code had before a `fix:` commit of /repo (`true`) and the repaired shape
+(`false`).  `Flags.current` is what the correspondence check ties to the working tree; `Flags.preFix` is the tree
+before the three commits (kept for the `_regress_` theorems). -/
+structure Flags where
+  /-- legacy: `startup_time` reset inside the wait loop, so `once(now + d)` is re-anchored by every wake-up
+  (repaired by 28f0376: `startup_time = None` moved before `while True`) -/
+  reanchor : Bool
+  /-- new: `if timeout := kwargs.get("timeout")` – 0 counts as "no timeout" (repaired by 74d9745: `is not None`) -/
+  timeout0Absent : Bool
+  /-- new: a cancelled waiter does not stop its `WaitUntilDecoratorManager` (repaired by d8d17a4: `try … finally:
+  if dm.status is RUNNING: await dm.stop()`) -/
+  cancelNoStop : Bool
+deriving DecidableEq, Repr
+
+def Flags.current : Flags := { reanchor := false, timeout0Absent := false, cancelNoStop := false }
+def Flags.preFix : Flags := { reanchor := true, timeout0Absent := true, cancelNoStop := true }
+
 /-! ## shared pieces -/
 
 /-- `timer_trigger_next` for the three shapes: the next instant strictly after `anchor` -/
@@ -181,36 +200,46 @@ def hasTime (cfg : Cfg) : Bool := cfg.time != .none
 /-! ## legacy -/
 namespace Legacy
 
+/-- `timer_trigger_next(time_trigger, now, startup_time)` inside the loop.  Pre-fix: `startup_time = now` on every
+iteration, i.e. `timeNext` at the current anchor.  Repaired: `startup_time` is the first `now` (= the call), so
+`once(now + d)` denotes the instant `call + d`, still offered while `now < call + d` (or at the very first iteration) -/
+def tnext (fl : Flags) (ts : TimeSpec) (call anchor : Nat) : Option Nat :=
+  if fl.reanchor then timeNext ts anchor
+  else
+    match ts with
+    | .rel d => if anchor = call ∨ anchor < call + d then some (call + d) else Option.none
+    | other => timeNext other anchor
+
 /-- decided at the top of a loop iteration without waiting: timeout already over / nothing to wait for -/
-def pre (cfg : Cfg) (call anchor : Nat) : Option Exit :=
+def pre (fl : Flags) (cfg : Cfg) (call anchor : Nat) : Option Exit :=
   if (match cfg.timeout with | some T => decide (call + T ≤ anchor) | Option.none => false) then
     some (.ret anchor .timeout)
-  else if (timeNext cfg.time anchor).isNone && cfg.timeout.isNone && !hasListen cfg then
+  else if (tnext fl cfg.time call anchor).isNone && cfg.timeout.isNone && !hasListen cfg then
     some (.ret anchor .none)
   else Option.none
 
-def dl (cfg : Cfg) (call anchor : Nat) : Option (Nat × DKind) :=
-  deadline (timeNext cfg.time anchor) (cfg.timeout.map (call + ·))
+def dl (fl : Flags) (cfg : Cfg) (call anchor : Nat) : Option (Nat × DKind) :=
+  deadline (tnext fl cfg.time call anchor) (cfg.timeout.map (call + ·))
 
 /-- the `while True` loop: `anchor` = `now` of the current iteration (every wake-up re-evaluates the time trigger
 with `startup_time = now`) -/
-def loop (cfg : Cfg) (call : Nat) : Hist → Nat → Exit
+def loop (fl : Flags) (cfg : Cfg) (call : Nat) : Hist → Nat → Exit
   | [], anchor =>
-    match pre cfg call anchor with
+    match pre fl cfg call anchor with
     | some e => e
     | Option.none =>
-      match dl cfg call anchor with
+      match dl fl cfg call anchor with
       | Option.none => .waiting
       | some (d, k) => retOf d k
   | (t, it) :: rest, anchor =>
-    match pre cfg call anchor with
+    match pre fl cfg call anchor with
     | some e => e
     | Option.none =>
-      match dl cfg call anchor with
-      | Option.none => onItem cfg t it (loop cfg call rest t) (loop cfg call rest anchor)
+      match dl fl cfg call anchor with
+      | Option.none => onItem cfg t it (loop fl cfg call rest t) (loop fl cfg call rest anchor)
       | some (d, k) =>
         if d < t then retOf d k
-        else onItem cfg t it (loop cfg call rest t) (loop cfg call rest anchor)
+        else onItem cfg t it (loop fl cfg call rest t) (loop fl cfg call rest anchor)
 
 /-- `await asyncio.sleep(timeout)` of the no-trigger case (cancellable) -/
 def sleepExit (call T : Nat) : Hist → Exit
@@ -259,7 +288,7 @@ def cleanup (cfg : Cfg) (q : Nat) (tb : Tables) : Tables :=
 
 /-- one call of `task.wait_until`: `q` = its fresh queue, `tb` = the tables before, `v0` = current value of the
 watched variable, `call` = instant of the call, `hist` = what happens afterwards -/
-def run (cfg : Cfg) (q : Nat) (tb : Tables) (v0 : Nat) (call : Nat) (hist : Hist) : Exit × Tables :=
+def run (fl : Flags) (cfg : Cfg) (q : Nat) (tb : Tables) (v0 : Nat) (call : Nat) (hist : Hist) : Exit × Tables :=
   if !(hasListen cfg || hasTime cfg) then
     match cfg.timeout with
     | some T => (sleepExit call T hist, tb)
@@ -268,7 +297,7 @@ def run (cfg : Cfg) (q : Nat) (tb : Tables) (v0 : Nat) (call : Nat) (hist : Hist
     match setup cfg q tb v0 call with
     | .error r => r
     | .ok tb1 =>
-      let e := loop cfg call hist call
+      let e := loop fl cfg call hist call
       (e, if e.leavesRunning then tb1 else cleanup cfg q tb1)
 
 end Legacy
@@ -276,27 +305,30 @@ end Legacy
 /-! ## new -/
 namespace New
 
-/-- `if timeout := kwargs.get("timeout")`: 0 counts as absent -/
-def effTimeout (cfg : Cfg) : Option Nat :=
-  match cfg.timeout with
-  | some 0 => Option.none
-  | x => x
+/-- the timeout the manager acts on.  Pre-fix `if timeout := kwargs.get("timeout")`: 0 counts as absent;
+repaired `is not None`: every given timeout -/
+def effTimeout (fl : Flags) (cfg : Cfg) : Option Nat :=
+  if fl.timeout0Absent then
+    match cfg.timeout with
+    | some 0 => Option.none
+    | x => x
+  else cfg.timeout
 
 /-- deadlines are fixed when the decorators start (`dm.startup_time`) -/
-def dl (cfg : Cfg) (call : Nat) : Option (Nat × DKind) :=
-  deadline (timeNext cfg.time call) ((effTimeout cfg).map (call + ·))
+def dl (fl : Flags) (cfg : Cfg) (call : Nat) : Option (Nat × DKind) :=
+  deadline (timeNext cfg.time call) ((effTimeout fl cfg).map (call + ·))
 
-def loop (cfg : Cfg) (call : Nat) : Hist → Exit
+def loop (fl : Flags) (cfg : Cfg) (call : Nat) : Hist → Exit
   | [] =>
-    match dl cfg call with
+    match dl fl cfg call with
     | Option.none => .waiting
     | some (d, k) => retOf d k
   | (t, it) :: rest =>
-    match dl cfg call with
-    | Option.none => onItem cfg t it (loop cfg call rest) (loop cfg call rest)
+    match dl fl cfg call with
+    | Option.none => onItem cfg t it (loop fl cfg call rest) (loop fl cfg call rest)
     | some (d, k) =>
       if d < t then retOf d k
-      else onItem cfg t it (loop cfg call rest) (loop cfg call rest)
+      else onItem cfg t it (loop fl cfg call rest) (loop fl cfg call rest)
 
 /-- which decorators of the temporary manager have been started -/
 structure Started where
@@ -317,8 +349,8 @@ def stopAll (q : Nat) (s : Started) (tb : Tables) : Tables :=
 
 abbrev Stage := Except (Exit × Tables) (Started × Tables)
 
-def timeoutStart (cfg : Cfg) (s : Started) (tb : Tables) : Stage :=
-  if (effTimeout cfg).isSome then .ok ({ s with to := true }, { tb with tasks := tb.tasks + 1 }) else .ok (s, tb)
+def timeoutStart (fl : Flags) (cfg : Cfg) (s : Started) (tb : Tables) : Stage :=
+  if (effTimeout fl cfg).isSome then .ok ({ s with to := true }, { tb with tasks := tb.tasks + 1 }) else .ok (s, tb)
 
 /-- `StateTriggerDecorator.start`: `notify_add`, background `_cycle` task whose check-now may dispatch at once -/
 def stateStart (cfg : Cfg) (q : Nat) (v0 : Nat) (call : Nat) (s : Started) (tb : Tables) : Stage :=
@@ -359,8 +391,8 @@ def afterState (cfg : Cfg) (q : Nat) (call : Nat) (s1 : Started) (t1 : Tables) :
   (eventStart cfg s2 t2).andThen fun s3 t3 => mqttStart cfg s3 t3
 
 /-- `dm.start()`: timeout decorator (added in `__init__`), then registry order state, time, event, mqtt -/
-def start (cfg : Cfg) (q : Nat) (tb : Tables) (v0 : Nat) (call : Nat) : Stage :=
-  (timeoutStart cfg {} tb).andThen fun s0 t0 =>
+def start (fl : Flags) (cfg : Cfg) (q : Nat) (tb : Tables) (v0 : Nat) (call : Nat) : Stage :=
+  (timeoutStart fl cfg {} tb).andThen fun s0 t0 =>
   (stateStart cfg q v0 call s0 t0).andThen (afterState cfg q call)
 
 def parseAll (cfg : Cfg) : Bool :=
@@ -370,18 +402,25 @@ def parseAll (cfg : Cfg) : Bool :=
 
 def noKwargs (cfg : Cfg) : Bool := !(hasListen cfg || hasTime cfg) && cfg.timeout.isNone
 
-def noDecorators (cfg : Cfg) : Bool := !(hasListen cfg || hasTime cfg) && (effTimeout cfg).isNone
+def noDecorators (fl : Flags) (cfg : Cfg) : Bool := !(hasListen cfg || hasTime cfg) && (effTimeout fl cfg).isNone
 
-/-- `await dm.wait_until()`: the first dispatch / exception stops everything; a cancelled waiter stops nothing -/
-def finish (cfg : Cfg) (q : Nat) (call : Nat) (hist : Hist) : Stage → Exit × Tables
+/-- does the manager stay as it is when the wait ends this way?  Still waiting: yes.  Cancelled waiter: pre-fix
+yes (nothing stops it), repaired no (`finally: await dm.stop()`).  Return / exception: never. -/
+def keeps (fl : Flags) : Exit → Bool
+  | .waiting => true
+  | .cancelled _ => fl.cancelNoStop
+  | _ => false
+
+/-- `await dm.wait_until()`: the first dispatch / exception stops everything; see `keeps` for a cancelled waiter -/
+def finish (fl : Flags) (cfg : Cfg) (q : Nat) (call : Nat) (hist : Hist) : Stage → Exit × Tables
   | .error r => r
-  | .ok p => (loop cfg call hist, if (loop cfg call hist).leavesRunning then p.2 else stopAll q p.1 p.2)
+  | .ok p => (loop fl cfg call hist, if keeps fl (loop fl cfg call hist) then p.2 else stopAll q p.1 p.2)
 
-def run (cfg : Cfg) (q : Nat) (tb : Tables) (v0 : Nat) (call : Nat) (hist : Hist) : Exit × Tables :=
+def run (fl : Flags) (cfg : Cfg) (q : Nat) (tb : Tables) (v0 : Nat) (call : Nat) (hist : Hist) : Exit × Tables :=
   if noKwargs cfg then (.ret call .none, tb)
   else if !parseAll cfg then (.exc call .parse, tb)
-  else if noDecorators cfg then (.exc call .runtime, tb)
-  else finish cfg q call hist (start cfg q tb v0 call)
+  else if noDecorators fl cfg then (.exc call .runtime, tb)
+  else finish fl cfg q call hist (start fl cfg q tb v0 call)
 
 end New
 
@@ -399,10 +438,10 @@ def valueAt (v : Nat) (call : Nat) : Hist → Nat
 
 def after (call : Nat) (h : Hist) : Hist := h.filter (fun p => decide (call < p.1))
 
-def Legacy.runAt (cfg : Cfg) (q : Nat) (tb : Tables) (v : Nat) (call : Nat) (full : Hist) : Exit × Tables :=
-  Legacy.run cfg q tb (valueAt v call full) call (after call full)
+def Legacy.runAt (fl : Flags) (cfg : Cfg) (q : Nat) (tb : Tables) (v : Nat) (call : Nat) (full : Hist) : Exit × Tables :=
+  Legacy.run fl cfg q tb (valueAt v call full) call (after call full)
 
-def New.runAt (cfg : Cfg) (q : Nat) (tb : Tables) (v : Nat) (call : Nat) (full : Hist) : Exit × Tables :=
-  New.run cfg q tb (valueAt v call full) call (after call full)
+def New.runAt (fl : Flags) (cfg : Cfg) (q : Nat) (tb : Tables) (v : Nat) (call : Nat) (full : Hist) : Exit × Tables :=
+  New.run fl cfg q tb (valueAt v call full) call (after call full)
 
 end PsModel.C15
